@@ -159,6 +159,7 @@ pub fn run_c14(tier: &str, parity_odd: bool, shard: usize, nshards: usize, rep: 
             let vy: Vec<u8> = y.clone();
             let vx: Vec<u8> = x.clone();
             cx.pair = format!("x={:02x?} y={:02x?}", x, y);
+            oracle::sys::set_crash_note(&cx.pair);
             if pairs <= 3 || pairs % 1500 == 0 {
                 let p = cx.pair.clone();
                 cx.rep.sample(format!("{} x {} Bytes reps x {} BytesMut reps x all rows", p, bx.len(), mx.len()));
@@ -602,6 +603,11 @@ pub fn run_c15(tier: &str, parity_odd: bool, shard: usize, nshards: usize, rep: 
     let mut distinct_outputs: BTreeSet<u64> = BTreeSet::new();
     let mut escapes_seen: BTreeSet<String> = BTreeSet::new();
     for (i, x) in uni.iter().enumerate() {
+        if x.len() <= 64 {
+            oracle::sys::set_crash_note(&format!("C15 byte string {:02x?}", x));
+        } else {
+            oracle::sys::set_crash_note(&format!("C15 byte string of {} bytes starting {:02x?}", x.len(), &x[..16]));
+        }
         oracle::begin_execution(parity_odd);
         // every representation for short strings; a spread of them for the big pair sweep
         let all = x.len() != 2 || i % 17 == 0;
@@ -611,7 +617,13 @@ pub fn run_c15(tier: &str, parity_odd: bool, shard: usize, nshards: usize, rep: 
             if !all && k != i % br.len() {
                 continue;
             }
-            let (d, l, u) = oracle::subject(|| (format!("{:?}", b), format!("{:x}", b), format!("{:X}", b)));
+            let (d, l, u) = match oracle::subject_try(|| (format!("{:?}", b), format!("{:x}", b), format!("{:X}", b))) {
+                Ok(t) => t,
+                Err(e) => {
+                    rep.violate("C15", "format-panic", &format!("formatting {} {:02x?} with {{:?}} / {{:x}} / {{:X}} panicked: {}", name, x, e), "");
+                    continue;
+                }
+            };
             c15_one(x, name, &d, &l, &u, rep);
             if k == 0 {
                 distinct_outputs.insert(oracle::report::hash128(d.as_bytes()) as u64);
@@ -630,10 +642,16 @@ pub fn run_c15(tier: &str, parity_odd: bool, shard: usize, nshards: usize, rep: 
             if !all && k != i % mr.len() {
                 continue;
             }
-            let (d, l, u) = oracle::subject(|| (format!("{:?}", m), format!("{:x}", m), format!("{:X}", m)));
+            let (d, l, u) = match oracle::subject_try(|| (format!("{:?}", m), format!("{:x}", m), format!("{:X}", m))) {
+                Ok(t) => t,
+                Err(e) => {
+                    rep.violate("C15", "format-panic", &format!("formatting {} {:02x?} with {{:?}} / {{:x}} / {{:X}} panicked: {}", name, x, e), "");
+                    continue;
+                }
+            };
             c15_one(x, name, &d, &l, &u, rep);
         }
-        if i < 3 || i % 9000 == 0 {
+        if (i < 3 || i % 9000 == 0) && rep.violations.is_empty() {
             let d = format!("{:?}", br[0].1);
             rep.sample(format!("bytes {:02x?} -> Debug {} -> parsed back equal; hex {:x}", x, d, br[0].1));
         }
